@@ -30,7 +30,7 @@ def opKey (j : Json) : R Json := do
   let kdb := match compositeKdb execKeyPrims c with
     | .key k => Json.str (bytesToHex k)
     | .noCredentials => Json.null
-    | .panicNot32 => Json.str "panic"
+    | .errNot32 => Json.str "err:key"
   let elems := match keyElements execKeyPrims c with
     | none => Json.null
     | some es => jList (es.map fun e => Json.str (bytesToHex e))
